@@ -1426,7 +1426,7 @@ package decimal
 //@ func decBasicSqr(z, x dec)
 //@   requires[len]     len(x) >= 1 && len(z) == 2*len(x) && len(x) <= 100000000
 //@   requires[words]   wordsok(x)
-//@   requires[apart]   z.arr != x.arr
+//@   requires[apart]   apart_rng(z, 2*len(x), x)
 //@   modifies mem(z)
 //@   ensures[words,C06] wordsok(z)
 //@   ensures[value,C06] V(z) == V(x)*V(x)
@@ -1438,7 +1438,7 @@ package decimal
 //@   hint[entry] mul_mono(V(x) + 1, P(len(x)), P(len(x)))
 //@   hint[entry] assert(V(x)*V(x) < P(2*len(x)))
 //@   loop 1 invariant[range] 1 <= i && i <= n && n == len(x) && len(t) == 2*n && len(z) == 2*n
-//@   loop 1 invariant[bufs]  fresh(t) && t.arr != z.arr && t.arr != x.arr && z.arr != x.arr
+//@   loop 1 invariant[bufs]  fresh(t) && t.arr != z.arr && t.arr != x.arr && apart_rng(z, 2*len(x), x)
 //@   loop 1 invariant[words] wordsok(t) && wordsok(z[:2*i]) && wordsok(x)
 //@   loop 1 invariant[zeros] t[0] == 0 && (forall k in 2*i-1..2*n :: t[k] == 0)
 //@   loop 1 invariant[value] V(z[:2*i]) + 2*V(t) == V(x[:i])*V(x[:i])
@@ -1477,14 +1477,95 @@ package decimal
 //@   hint[after:add10VV#1] result >= 1 ==> mul_mono(1, result, P(len(z)))
 
 //@ func decKaratsubaSqr(z, x dec)
-//@   requires[len]   len(x) >= 1 && len(z) >= 6*len(x)
+//@   requires[len]   len(x) >= 1 && len(z) >= 6*len(x) && len(x) <= 100000000
 //@   requires[words] wordsok(x)
-//@   requires[apart] z.arr != x.arr
+//@   requires[apart] apart_rng(z, 6*len(x), x)
 //@   modifies mem(z[:6*len(x)])
 //@   ensures[words,C06] wordsok(z[:2*len(x)])
 //@   ensures[value,C06] V(z[:2*len(x)]) == V(x)*V(x)
 //@   ensures[operands,C09] samewords(x, old(x))
-//@   status assumed bounded: bounded/c06_test.go (recursive Karatsuba squaring)
+//@   nomerge
+//@   hint[entry] V_split(x, 0, len(x)/2, len(x))
+//@   hint[entry] V_bounds(x, 0, len(x)/2)
+//@   hint[entry] V_bounds(x, len(x)/2, len(x))
+//@   hint[entry] V_nonneg(x, 0, len(x)/2)
+//@   hint[entry] V_nonneg(x, len(x)/2, len(x))
+//@   hint[after:decKaratsubaSqr#1] assert(n == 2*n2 && n2 >= 1)
+//@   hint[after:decKaratsubaSqr#1] assert(V(z[:n]) == V(x0)*V(x0))
+//@   hint[after:decKaratsubaSqr#2] assert(V(z[n:2*n]) == V(x1)*V(x1) && V(z[:n]) == V(x0)*V(x0))
+//@   hint[after:sub10VV#1] V_bounds(xd, 0, n2)
+//@   hint[after:sub10VV#2] V_bounds(xd, 0, n2)
+//@   hint[after:sub10VV#2] result >= 1 ==> mul_mono(1, result, P(n2))
+//@   hint[after:sub10VV#2] assert(result == 0)
+//@   hint[after:sub10VV#2] mul_eq(result, 0, P(n2))
+//@   hint[after:decKaratsubaSqr#3] assert(V(p[:n]) == V(xd)*V(xd) && V(z[n:2*n]) == V(x1)*V(x1) && V(z[:n]) == V(x0)*V(x0))
+//@   hint[after:copy#1] V_eq(r, z, 0, n)
+//@   hint[after:copy#1] V_eq(r, z, n, 2*n)
+//@   hint[after:copy#1] V_split(z, 0, n, 2*n)
+//@   hint[after:copy#1] V_split(z, 0, n2, 2*n)
+//@   hint[after:copy#1] V_nonneg(z, 0, n2)
+//@   hint[after:copy#1] V_bounds(z, 0, n2)
+//@   hint[after:copy#1] P_add(n2, n2)
+//@   hint[after:copy#1] P_add(n, n2)
+//@   hint[after:copy#1] P_mono(0, n2)
+//@   hint[after:copy#1] V_bounds(x0, 0, n2)
+//@   hint[after:copy#1] V_bounds(x1, 0, n2)
+//@   hint[after:copy#1] V_bounds(xd, 0, n2)
+//@   hint[after:copy#1] V_nonneg(x0, 0, n2)
+//@   hint[after:copy#1] V_nonneg(x1, 0, n2)
+//@   hint[after:copy#1] V_nonneg(xd, 0, n2)
+//@   hint[after:copy#1] mul_mono(V(x0), P(n2) - 1, V(x0))
+//@   hint[after:copy#1] mul_mono(V(x0), P(n2) - 1, P(n2) - 1)
+//@   hint[after:copy#1] mul_mono(V(x1), P(n2) - 1, V(x1))
+//@   hint[after:copy#1] mul_mono(V(x1), P(n2) - 1, P(n2) - 1)
+//@   hint[after:copy#1] mul_mono(0, V(x0), V(x0))
+//@   hint[after:copy#1] mul_mono(0, V(x1), V(x1))
+//@   hint[after:copy#1] mul_mono(0, V(xd), V(xd))
+//@   hint[after:copy#1] mul_mono(1, P(n2), P(n2))
+//@   hint[after:copy#1] mul_mono(V(x0)*V(x0), (P(n2) - 1)*(P(n2) - 1), P(n2))
+//@   hint[after:copy#1] mul_mono(V(x1)*V(x1), (P(n2) - 1)*(P(n2) - 1), P(n2))
+//@   hint[after:copy#1] mul_mono(V(x1)*V(x1), (P(n2) - 1)*(P(n2) - 1), P(n2)*P(n2))
+//@   hint[after:copy#1] mul_eq(P(n), P(n2)*P(n2), V(z[n:2*n]))
+//@   hint[after:copy#1] mul_eq(P(n + n2), P(n2)*P(n2)*P(n2), 1)
+//@   hint[after:copy#1] V(xd) == V(x1) - V(x0) ==> mul_eq(V(xd), V(x1) - V(x0), V(xd))
+//@   hint[after:copy#1] V(xd) == V(x1) - V(x0) ==> mul_eq(V(xd), V(x1) - V(x0), V(x1) - V(x0))
+//@   hint[after:copy#1] V(xd) == V(x0) - V(x1) ==> mul_eq(V(xd), V(x0) - V(x1), V(xd))
+//@   hint[after:copy#1] V(xd) == V(x0) - V(x1) ==> mul_eq(V(xd), V(x0) - V(x1), V(x0) - V(x1))
+//@   hint[after:copy#1] assert(V(xd)*V(xd) == (V(x1) - V(x0))*(V(x1) - V(x0)))
+//@   hint[after:copy#1] mul_eq(V(xd)*V(xd), (V(x1) - V(x0))*(V(x1) - V(x0)), P(n2))
+//@   hint[after:copy#1] mul_eq(V(x), V(x0) + P(n2)*V(x1), V(x))
+//@   hint[after:copy#1] mul_eq(V(x), V(x0) + P(n2)*V(x1), V(x0) + P(n2)*V(x1))
+//@   hint[after:copy#1] assert(V(z[:n]) == V(x0)*V(x0) && V(z[n:2*n]) == V(x1)*V(x1))
+//@   hint[after:copy#1] assert(P(n) == P(n2)*P(n2))
+//@   hint[after:copy#1] assert(V(z[:2*n]) == V(z[:n]) + P(n)*V(z[n:2*n]))
+//@   hint[after:copy#1] mul_eq(V(z[n:2*n]), V(x1)*V(x1), P(n2)*P(n2))
+//@   hint[after:copy#1] assert(V(x)*V(x) == V(x0)*V(x0) + 2*(P(n2)*(V(x0)*V(x1))) + P(n2)*P(n2)*(V(x1)*V(x1)))
+//@   hint[after:copy#1] assert(V(z[:2*n]) == V(x0)*V(x0) + P(n2)*P(n2)*(V(x1)*V(x1)))
+//@   hint[after:copy#1] assert(V(z[:2*n]) == V(z[:n2]) + P(n2)*V(z[n2:2*n]))
+//@   hint[after:copy#1] assert(V(r[:n]) == V(x0)*V(x0) && V(r[n:2*n]) == V(x1)*V(x1) && V(p[:n]) == V(xd)*V(xd))
+//@   hint[after:copy#1] assert(V(x0)*V(x0) + P(n2)*(V(x0)*V(x0)) + P(n2)*(V(x1)*V(x1)) + P(n2)*P(n2)*(V(x1)*V(x1)) < P(n2)*P(n2)*P(n2)*P(n2))
+//@   hint[after:copy#1] mul_eq(P(n), P(n2)*P(n2), P(n2))
+//@   hint[after:copy#1] mul_eq(P(n + n2), P(n2)*P(n2)*P(n2), P(n2))
+//@   hint[after:copy#1] mul_eq(V(r[:n]), V(x0)*V(x0), P(n2))
+//@   hint[after:copy#1] mul_eq(V(r[n:2*n]), V(x1)*V(x1), P(n2))
+//@   hint[after:copy#1] mul_eq(V(p[:n]), V(xd)*V(xd), P(n2))
+//@   hint[after:copy#1] mul_mono(0, V(x0)*V(x0), P(n2))
+//@   hint[after:copy#1] mul_mono(0, V(x1)*V(x1), P(n2))
+//@   hint[after:copy#1] mul_mono(0, V(x1)*V(x1), P(n2)*P(n2))
+//@   hint[after:copy#1] mul_mono(0, V(xd)*V(xd), P(n2))
+//@   hint[after:copy#1] V(z[n2:2*n]) + V(r[:n]) >= P(n + n2) ==> mul_mono(P(n + n2), V(z[n2:2*n]) + V(r[:n]), P(n2))
+//@   hint[after:decKaratsubaAdd#1] V_split(z, 0, n2, 2*n)
+//@   hint[after:decKaratsubaAdd#1] mul_eq(V(z[n2:2*n]), pre(V(z[n2:2*n])) + V(r[:n]), P(n2))
+//@   hint[after:decKaratsubaAdd#1] V(z[n2:2*n]) + V(r[n:2*n]) >= P(n + n2) ==> mul_mono(P(n + n2), V(z[n2:2*n]) + V(r[n:2*n]), P(n2))
+//@   hint[after:decKaratsubaAdd#2] V_split(z, 0, n2, 2*n)
+//@   hint[after:decKaratsubaAdd#2] mul_eq(V(z[n2:2*n]), pre(V(z[n2:2*n])) + V(r[n:2*n]), P(n2))
+//@   hint[after:decKaratsubaAdd#2] assert(V(z[:2*n]) == V(x0)*V(x0) + P(n2)*(V(x0)*V(x0)) + P(n2)*(V(x1)*V(x1)) + P(n2)*P(n2)*(V(x1)*V(x1)))
+//@   hint[after:decKaratsubaAdd#2] V_nonneg(x, 0, n)
+//@   hint[after:decKaratsubaAdd#2] mul_mono(0, V(x), V(x))
+//@   hint[after:decKaratsubaAdd#2] assert(V(x0)*V(x0) + P(n2)*(V(x0)*V(x0)) + P(n2)*(V(x1)*V(x1)) + P(n2)*P(n2)*(V(x1)*V(x1)) == V(x)*V(x) + P(n2)*(V(xd)*V(xd)))
+//@   hint[after:decKaratsubaAdd#2] V(z[n2:2*n]) < V(p[:n]) ==> mul_mono(V(z[n2:2*n]) + 1, V(p[:n]), P(n2))
+//@   hint[after:decKaratsubaSub#1] V_split(z, 0, n2, 2*n)
+//@   hint[after:decKaratsubaSub#1] mul_eq(V(z[n2:2*n]) + V(p[:n]), pre(V(z[n2:2*n])), P(n2))
 
 // dec.sqr: dispatch, one-word case, schoolbook path and the composition
 // (x0 + x1*B^k)^2 = x0^2 + 2*x0*x1*B^k + x1^2*B^2k are verified.
